@@ -508,6 +508,19 @@ fn generate_server_role(rng: &mut Rng, thorough: bool, which: &str) -> Vec<Case>
                 cs.push(Case::new(621, vec![vec![0, 1, 0, exp.0, exp.1], spec(kind, cut, 1500, 0, 0), b2a(&b)], "slow-preamble"));
             }
         }
+        // the same with pauses beyond any plausible watchdog period (2.6 s; thorough: 5.5 s as well): the
+        // bytes read before the pause still count, the stream is delivered whole (C01, C08)
+        for kind in 0..2u64 {
+            for cut in [1usize, 2] {
+                for pause in if thorough { vec![2600u64, 5500] } else { vec![2600u64] } {
+                    if !thorough && kind == 0 && cut == 2 { continue; }
+                    let p = payload(rng, 40);
+                    let b = if kind == 0 { uni_wt(0, &p) } else { bi_wt(0, &p) };
+                    let exp = if kind == 0 { (1, 0) } else { (0, 1) };
+                    cs.push(Case::new(621, vec![vec![0, 1, 0, exp.0, exp.1], spec(kind, cut, pause, 0, 0), b2a(&b)], "very-slow-preamble"));
+                }
+            }
+        }
         // several concurrent streams of both kinds, non-minimal session id encodings
         for nstreams in [4usize, 12] {
             let mut args = vec![vec![0, 2, 0, 0, 0]];
